@@ -40,8 +40,8 @@ type ifRec struct {
 
 var (
 	reReach  = regexp.MustCompile(`^\(\((L\d+)\+uint16\((L\d+)\.Width\)\)>=P0\.Max\.Width\)$`)
-	reIdx    = regexp.MustCompile(`^\((L\d+)<len\((L\d+)\)\)$`)
-	reIdxM1  = regexp.MustCompile(`^\((L\d+)<\(len\((L\d+)\)-1\)\)$`)
+	reIdx    = regexp.MustCompile(`^\(len\((L\d+)\)>(L\d+)\)$`)
+	reIdxM1  = regexp.MustCompile(`^\(\(len\((L\d+)\)-1\)>(L\d+)\)$`)
 	reIdent  = regexp.MustCompile(`^L\d+$`)
 	reRange  = regexp.MustCompile(`^for (_|L\d+),(L\d+):=range (L\d+) \{$`)
 	reAssign = regexp.MustCompile(`^(L\d+):=\((L\d+)>int\(P0\.Max\.Width\)\)$`)
@@ -127,8 +127,8 @@ func ellipsisCond(c *ex.Ctx, fd *ast.FuncDecl, where string) []string {
 			if reIdxM1.MatchString(n) {
 				re, atom = reIdxM1, ".idxLtLenM1"
 			}
-			m := re.FindStringSubmatch(n)
-			if m[2] == loopOver && has(reRange, func(r []string) bool { return r[1] == m[1] && r[3] == loopOver }) {
+			m := re.FindStringSubmatch(n) // canonical orientation: len(X) > K
+			if m[1] == loopOver && has(reRange, func(r []string) bool { return r[1] == m[2] && r[3] == loopOver }) {
 				atoms = append(atoms, atom)
 			} else {
 				other()
